@@ -146,13 +146,18 @@ def float64Val (c : CV) : Option Q :=
   | _ => some ⟨0, 1⟩
 
 /-- `convertConst(v, t)` for a go/constant value: the reflect value of kind `t` -/
-def convertConstY (c : CV) (t : BT) : Res RV :=
+def convertConstY (F : Facts) (c : CV) (t : BT) : Res RV :=
   match t with
   | .bool => (match c with | .bool b => .ok (.r .bool (.bool b)) | _ => .crash)
   | .str => (match c with | .str s => .ok (.r .str (.str s)) | _ => .crash)
   | .i k => .ok (.r (.i k) (.int (wrapK k (if k.signed then int64Val c else uint64Val c))))
   | .f32 => (match c.toFloat with
-             | .flt q => (match round32 q with | some r => .ok (.r .f32 (.flt r)) | none => .unm "float-inf")
+             | .flt q =>
+               -- `constant.Float32Val`: the nearest float32 of the exact value; with the float64 arm shared (seed C03-3)
+               -- the float64 value is converted, a second rounding
+               (match (if F.eval.chk.f32Direct then round32 q else (round64 q).bind round32) with
+                | some r => .ok (.r .f32 (.flt r))
+                | none => .unm "float-inf")
              | _ => .ok (.r .f32 (.flt ⟨0, 1⟩)))
   | .f64 => (match c.toFloat with
              | .flt q => (match round64 q with | some r => .ok (.r .f64 (.flt r)) | none => .unm "float-inf")
@@ -179,7 +184,7 @@ def convertUntypedY (F : Facts) (n : NS) (target : Ty) : Res (Option NS) :=
       match n.rv with
       | .c c =>
         if !representableY F c b then .ok none
-        else (convertConstY c b).bind fun rv => .ok (some { n with rv := rv, ty := target, self := false, set := false })
+        else (convertConstY F c b).bind fun rv => .ok (some { n with rv := rv, ty := target, self := false, set := false })
       | .r _ v =>
         -- not a constant.Value: convertConst returns it unchanged; `representable` looks at it through constValue
         -- since 7402c20 (before, it returned early)
